@@ -39,7 +39,7 @@ def rmap(func, data):
     """
     if isinstance(data, Mapping):
         return {key: rmap(func, value) for key, value in data.items()}
-    if isinstance(data, Iterable):
+    if isinstance(data, Iterable) and not isinstance(data, str):
         return type(data)([rmap(func, elem) for elem in data])
     return func(data)
 
@@ -504,7 +504,7 @@ class Box(Arrow):
         def recursive_free_symbols(data):
             if isinstance(data, Mapping):
                 data = data.values()
-            if isinstance(data, Iterable):
+            if isinstance(data, Iterable) and not isinstance(data, str):
                 # Handles numpy 0-d arrays, which are actually not iterable.
                 if not hasattr(data, "shape") or data.shape != ():
                     return set().union(*map(recursive_free_symbols, data))
